@@ -247,6 +247,12 @@ Definition dispatch_rtp (op : Z) (args : list tok) : value :=
     | Some h, Some opl => d_clone (fst (run_ext_ops h pre)) (match opl with Some l => l | None => [] end) ps
     | _, _ => VBad
     end
+  | 2003, [TBytes w] =>
+    (* the packet comes from Unmarshal (elements no SetExtension call can create, e.g. one-byte id 0) *)
+    match packet_unmarshal_into empty_packet w with
+    | Ok r => d_clone (hdr (pr_packet r)) (payload (pr_packet r)) (padding_size (pr_packet r))
+    | _ => VTag 97 VUnit
+    end
   | 501, [h; TList ops] =>
     match t_header h with
     | Some h =>
